@@ -49,7 +49,8 @@ def gen_cfg_grammar(rng):
         place('nameguard', True, 'True')
     if rng.random() < 0.2:
         directives['namechars'] = rng.choice(['-', '$', '_-'])
-    if rng.random() < 0.25:
+    icase = rng.random() < 0.25
+    if icase:
         place('ignorecase', True, 'True')
     has_comments = rng.random() < 0.5
     if has_comments:
@@ -63,7 +64,7 @@ def gen_cfg_grammar(rng):
             directives['eol_comments'] = EOLC
         else:
             settings_extra(settings)['eol_comments'] = EOLC
-    if rng.random() < 0.35:
+    if rng.random() < (0.8 if icase else 0.3):
         # grammar tokens written in upper / mixed case (ignorecase compares both sides case-folded; without it they match exactly)
         from props.c02 import map_exp
 
@@ -73,6 +74,7 @@ def gen_cfg_grammar(rng):
             return e
         g['rules'] = [(n, d, map_exp(e, up)) for n, d, e in g['rules']]
     g['directives'] = directives
+    g['_icase'] = icase
     return g, settings, ws, has_comments, has_eol
 
 
@@ -138,7 +140,7 @@ def shard(col, shard_i, ngrammars, ninputs):
             lex = G.sample_sentence(rng, g, g['rules'][0][2])
             if rng.random() < 0.3 and lex:
                 lex[rng.randrange(len(lex))] = rng.choice(['a', 'b', 'if', 'x', 'IF', 'Ab', 'a-b', 'if1'])
-            if rng.random() < 0.3 and lex:
+            if rng.random() < (0.7 if g.get('_icase') else 0.3) and lex:
                 i = rng.randrange(len(lex))
                 lex[i] = rng.choice([lex[i].upper(), lex[i].lower(), lex[i].swapcase(), lex[i].capitalize()])
             texts.append(G.join_lexemes(rng, lex, gaps=(' ', ' ', ' ', ''))[:40])
